@@ -66,7 +66,6 @@ CHECKS["C10"] = dict(
    technique="Lean 4 proof (loop-to-specification refinement, hash-table/finite-map simulation, relational case-invariance, list partition) + differential correspondence with the C "
              "functions in-process and with the real daemon process under SIGHUP",
    design="DESIGN.md §2 C10")
-
 CHECKS["C11"] = dict(
    text="Theorems about the Lean model of qmail-newu / cdb / qmail-lspawn nughde_get+spawn / qmail-getpw (Nq/Users.lean), for ALL tables, passwd databases, "
         "addresses and single-call fault plans: qmail-local is executed only right after successful setgroups[g], setgid g, setuid u, getuid=u≠0 with exactly the "
@@ -167,19 +166,24 @@ CHECKS["C18"] = dict(
    design="DESIGN.md §2 C18")
 
 CHECKS["C19"] = dict(
-   text="Theorems over ALL stored messages, command streams and maildirs about the Lean model Nq.Pop3 of qmail-pop3d.c/maildir.c/prioq.c/commands.c and qmail-popup.c: "
+   text="Theorems (43, no sorry) over ALL stored messages, command streams and maildirs about the Lean model Nq.Pop3 of qmail-pop3d.c/maildir.c/prioq.c/commands.c and qmail-popup.c: "
         "an RFC 1939 client decodes RETR to exactly the lines of the file plus the documented blank line and TOP n to header+blank+n body lines (no bare LF, dots stuffed, "
-        "terminator only at the end); message numbers denote the same file and size for the whole session; nothing is unlinked before or without QUIT, QUIT removes exactly "
-        "the messages marked by an accepted DELE since the last RSET and keeps the rest; 0, out-of-range, >= 2^64, non-numeric and marked numbers are refused without effect; "
-        "uid 0 exits 1 before touching the maildir; before authentication only USER/PASS/APOP/NOOP/QUIT act and descriptor 3 gets user NUL pass NUL <timestamp> NUL verbatim. "
+        "terminator only at the end); the message table built at start-up is a permutation of the eligible files (new/ and cur/, no dot files, mtime < now) sorted by mtime "
+        "(heap sort of prioq.c, proved by showing the POP3 heap model equal to the C15 heap model and reusing its lemmas) and message numbers denote that same file and size for the whole session, "
+        "whatever bytes arrive in whatever pieces and whatever files vanish; STAT's total is the sum of the sizes of the unmarked messages; LAST is the highest number marked since the last RSET; "
+        "a command line verb SP+ arg [CR] is dispatched as exactly (verb, arg), one handler per LF-terminated line, and the model's parser agrees with the reference's on every NUL-free line; "
+        "nothing is unlinked before or without QUIT, QUIT removes exactly the messages marked by an accepted DELE since the last RSET and keeps the rest; 0, out-of-range, >= 2^64, non-numeric and "
+        "marked numbers are refused without effect; uid 0 exits 1 before touching the maildir; before authentication only USER/PASS/APOP/NOOP/QUIT act and descriptor 3 gets user NUL pass NUL <timestamp> NUL verbatim. "
         "Tied to the current source by the translator (both pop3commands[] tables, the number scanner in use) and by running the real main() of both programs (sanitised build of the "
         "working tree, real temporary maildir, stand-in checker) against the compiled model on every command sequence up to length 3/4 over a 41-command alphabet on 5 maildir populations, "
-        "every message over {LF,'.',a,CR} up to length 6/7, and random sessions with vanishing files and arbitrary read sizes; the oracle is an independent RFC 1939 reference evaluated on the implementation's transcript.",
+        "every message over {LF,'.',a,CR} up to length 6/7, random sessions with vanishing files, arbitrary read sizes and maildirs of up to 49 messages, and by driving prioq.c directly "
+        "(every insertion order of up to 6 entries, random histories of up to 400 insert/delmin calls, array compared entry by entry); the oracle is an independent RFC 1939 reference evaluated on the "
+        "implementation's transcript (STAT total and LAST value included) plus, for the heap, 'every delmin removes a minimum, nothing lost, drain sorted' evaluated on the implementation's output.",
    note=NOTE_COMMON + "Modelled, not verified: readdir order (recorded by the harness), the clock (fixed), stat/open/read succeed on existing files, unique maildir names, pipe/fork succeed, timeouts. "
-        "By correspondence and oracle only: start-up order = mtime-sorted permutation (heap of prioq.c is modelled and compared, its sortedness is not proved), STAT total, LAST.",
-   technique="Lean 4 proof (encoder/decoder induction over lines, session invariants, file-system algebra for QUIT) + translator for command tables + exhaustive differential correspondence with the C programs",
+        "By correspondence and oracle only: which of several files with equal mtime gets the lower number (heap shape; left open by the property). "
+        "LAST is specified as the code behaves (highest DELEted number; RFC 1460's 'highest accessed' would also count RETR) - the man page only says LAST is supported.",
+   technique="Lean 4 proof (encoder/decoder induction over lines, session invariants, file-system algebra for QUIT, heap-sort via simulation to the C15 prioq model) + translator for command tables + exhaustive differential correspondence with the C programs",
    design="DESIGN.md §2 C19")
-
 CHECKS["C02"] = dict(
    text="Theorems about EVERY state reachable from the empty queue by ANY sequence of system-call-granular events of any number of qmail-queue instances, qmail-send with its qmail-clean, further "
         "qmail-send instances, the clock, kills and crashes (Lean model Nq.QueueSys; one event per directory operation; inductive invariant coupling each actor's control point to the files of its number, "
